@@ -91,7 +91,9 @@ def format_tag_value(value: Any) -> str:
     # Simple strings (no spaces or commas or special values) can be displayed without quotes.
     if isinstance(value, str) and not re.match(".*[ ,].*", value):
         try:
-            if isinstance(parse_tag_value(value), str):
+            if parse_tag_value(value) == value:
+                # The bare string parses back to itself. A string that is itself a JSON string
+                # literal (e.g. '"abc"') parses to its content and therefore must be quoted.
                 return value
         except ValueError:
             # Strings that look like malformed JSON (e.g. "[abc") must be quoted.
